@@ -810,7 +810,12 @@ impl Cx {
           bad.insert(if d.new_ids.is_empty() { "no-keyid-recorded".to_string() } else { "extra-keyids-recorded".to_string() });
         }
         // the method resolves in the requested scope, its digest maps to the new key, which exists
-        let resolved: Option<VerificationMethod> = catch(|| doc.core().resolve_method(frag.as_str(), Some(scope)).cloned()).ok().flatten();
+        // Query form: the returned fragment itself, except that a fragment starting with "did" is queried as
+        // "#fragment" here and checked separately below (DIDUrlQuery takes a bare string starting with the DID
+        // scheme for a full DID URL — a different root cause with its own signature).
+        let did_prefixed = frag.starts_with("did");
+        let q: String = if did_prefixed { format!("#{frag}") } else { frag.clone() };
+        let resolved: Option<VerificationMethod> = catch(|| doc.core().resolve_method(q.as_str(), Some(scope)).cloned()).ok().flatten();
         match &resolved {
           None => {
             bad.insert("method-does-not-resolve-in-scope".into());
@@ -839,7 +844,7 @@ impl Cx {
             }
             // signing with it works (fault-free)
             let payload: &[u8] = b"c09 payload";
-            let jws = catch(|| block_on(doc.create_jws(&env.st, frag.as_str(), payload, &JwsSignatureOptions::default())));
+            let jws = catch(|| block_on(doc.create_jws(&env.st, q.as_str(), payload, &JwsSignatureOptions::default())));
             match jws {
               Ok(Ok(jws)) => {
                 let lib_ok = catch(|| {
@@ -868,7 +873,35 @@ impl Cx {
             }
           }
         }
-        if bad.is_empty() {
+        if bad.is_empty() && did_prefixed {
+          // everything is in place; is the *returned* fragment usable as the `fragment` argument of the API?
+          self.rep.inc("did_prefixed_fragment_cases");
+          let bare_resolves = catch(|| doc.core().resolve_method(frag.as_str(), Some(scope)).is_some()).unwrap_or(false);
+          let bare_signs = matches!(
+            catch(|| block_on(doc.create_jws(&env.st, frag.as_str(), b"c09 payload", &JwsSignatureOptions::default()))),
+            Ok(Ok(_))
+          );
+          if !bare_resolves || !bare_signs {
+            let mut case = base.clone();
+            case["returned_fragment"] = json!(frag);
+            case["doc_type"] = json!(D::NAME);
+            case["resolve_method(returned_fragment)"] = json!(bare_resolves);
+            case["create_jws(returned_fragment)"] = json!(bare_signs);
+            case["resolve_method('#'+returned_fragment)"] = json!(true);
+            self.rep.violation(
+              "generate-ok:returned-did-prefixed-fragment-unusable-as-query",
+              &format!(
+                "{}::generate_method(scope={}, fragment={:?}) returned Ok({:?}); method, key and key id are in place, but resolve_method({:?}) -> {} and create_jws(storage, {:?}, ..) -> {} (\"#{}\" works): a bare fragment starting with \"did\" is parsed as a full DID URL by DIDUrlQuery",
+                D::NAME, scope_key(scope), fragment, frag, frag, if bare_resolves { "Some" } else { "None" }, frag, if bare_signs { "Ok" } else { "Err(MethodNotFound)" }, frag
+              ),
+              case,
+            );
+            out.kind = Kind::Violation;
+          }
+        }
+        if out.kind == Kind::Violation {
+          // reported above
+        } else if bad.is_empty() {
           self.rep.inc("generate_ok");
           out.frag = Some(frag);
         } else {
@@ -908,7 +941,7 @@ impl Cx {
       Err(_) => panic!("harness: bad target id {target_id}"),
     };
     // what the target is before the call: method present? its digest / key id?
-    let pre_method: Option<VerificationMethod> = doc.core().resolve_method(frag, None).cloned();
+    let pre_method: Option<VerificationMethod> = doc.core().resolve_method(&url, None).cloned();
     let pre_digest: Option<MethodDigest> = pre_method.as_ref().and_then(|m| MethodDigest::new(m).ok());
     let pre_kid: Option<String> =
       pre_digest.as_ref().and_then(|dg| block_on(env.st.key_id_storage().inner.get_key_id(dg)).ok()).map(|k| k.as_str().to_owned());
@@ -990,7 +1023,7 @@ impl Cx {
         if pre_method.is_none() {
           bad.insert("ok-for-absent-method".into());
         }
-        if post.doc.methods.iter().any(|(i, _, _)| *i == target_id) || doc.core().resolve_method(frag, None).is_some() {
+        if post.doc.methods.iter().any(|(i, _, _)| *i == target_id) || doc.core().resolve_method(&url, None).is_some() {
           bad.insert("method-left".into());
         }
         if post.doc.refs.iter().any(|(_, i)| *i == target_id) {
@@ -1150,6 +1183,15 @@ enum PurgeTarget {
   Absent,
 }
 
+fn frag_kind(f: Option<&str>) -> &'static str {
+  match f {
+    None => "kid",
+    Some(f) if f.starts_with('#') => "hash",
+    Some(f) if f.starts_with("did") => "didprefixed",
+    Some(_) => "plain",
+  }
+}
+
 fn scenario_kind(s: &Scenario) -> String {
   match s {
     Scenario::Generate { class, fragment, .. } => format!(
@@ -1160,7 +1202,7 @@ fn scenario_kind(s: &Scenario) -> String {
         GenClass::Clash(_) => "clash",
         GenClass::Dangling(_) => "dangling",
       },
-      fragment.is_some()
+      frag_kind(*fragment)
     ),
     Scenario::Purge { target, .. } => format!(
       "purge|{}",
@@ -1176,7 +1218,7 @@ fn scenario_kind(s: &Scenario) -> String {
 fn scenarios(thorough: bool) -> Vec<Scenario> {
   let mut v = Vec::new();
   for scope in all_scopes() {
-    for fragment in [Some("key-1"), Some("#key-2"), None] {
+    for fragment in [Some("key-1"), Some("#key-2"), None, Some("did-key-3")] {
       for class in [GenClass::FreshEmpty, GenClass::FreshPopulated] {
         for yield_delete in [false, true] {
           if yield_delete && !thorough && fragment != Some("key-1") {
@@ -1218,7 +1260,7 @@ fn run_scenario<D: Doc>(cx: &mut Cx, sc: &Scenario, idx: u64) {
       };
       let meta = Meta {
         origin: "exhaustive",
-        class: format!("{}|{}|frag={}|y{}", class_name, scope_key(*scope), fragment.map(|f| if f.starts_with('#') { "hash" } else { "plain" }).unwrap_or("kid"), *yield_delete as u8),
+        class: format!("{}|{}|frag={}|y{}", class_name, scope_key(*scope), frag_kind(*fragment), *yield_delete as u8),
         sig_suffix: suffix,
         detail: json!({"scenario": idx, "start_document": class_name, "dangling_in": match class { GenClass::Dangling(r) => json!(r), _ => Value::Null }}),
       };
@@ -1352,7 +1394,7 @@ fn history<D: Doc>(cx: &mut Cx, rng: &mut Rng, hid: u64) {
       } else {
         Some("svc".into())
       };
-      let clash = given.as_ref().map(|g| live.iter().any(|(f, _)| f == g) || doc.core().resolve_method(g.as_str(), None).is_some() || g == "svc").unwrap_or(false);
+      let clash = given.as_ref().map(|g| live.iter().any(|(f, _)| f == g) || doc.core().resolve_method(format!("#{g}").as_str(), None).is_some() || g == "svc").unwrap_or(false);
       let meta = Meta {
         origin: "history",
         class: format!("{}|{}|{}", if clash { "maybe-clash" } else { "fresh" }, scope_key(scope), given.is_some()),
